@@ -215,7 +215,7 @@ func genModel(r *common.Rng, size int) *model {
 			}
 			a.Eps = append(a.Eps, e)
 		}
-		paths := pick(r, pathPool, between(r, lo, hi))
+		paths := pick(r, pathPool, between(r, 2, 3))
 		for _, p := range paths {
 			ms := pick(r, methods, between(r, 1, 2))
 			for _, me := range ms {
